@@ -118,7 +118,9 @@ def pool : List Rule := [
   ⟨"let-intro", mul (pv "a") (pv "b"), let_ "x" (mul (mul (var "x") (pv "a")) (pv "b")) (num 1), [], [("x", "a"), ("x", "b")]⟩,
   -- two nested bindings inlined at once: a right side with CHAINED substitutions (the outer one has to go through what the
   -- inner one brought in: `?f` may mention `$x`)
-  ⟨"let-let-subst", let_ "x" (let_ "y" (pv "b") (pv "f")) (pv "e"), subst (subst (pv "b") "y" (pv "f")) "x" (pv "e"), [], []⟩
+  ⟨"let-let-subst", let_ "x" (let_ "y" (pv "b") (pv "f")) (pv "e"), subst (subst (pv "b") "y" (pv "f")) "x" (pv "e"), [], []⟩,
+  -- a rule with TWO side conditions (the crate's `and` combinator): a double summation of a term that mentions neither index
+  ⟨"sum2-const", sum "x" (sum "y" (pv "c")), mul (num 3) (mul (num 3) (pv "c")), [("x", "c"), ("y", "c")], []⟩
 ]
 
 open P in
